@@ -198,7 +198,11 @@ func runDecWorker(env *Env) {
 			decCase(t[0], t[1:], func(s string) { mu.Lock(); parts = append(parts, s); mu.Unlock() })
 		}()
 		verdict := ""
-		deadline := time.After(decWatchdog)
+		wd := decWatchdog
+		if ms := os.Getenv("VERIF_DEC_WATCHDOG_MS"); ms != "" {
+			wd = time.Duration(atoi(ms)) * time.Millisecond
+		}
+		deadline := time.After(wd)
 		tick := time.NewTicker(20 * time.Millisecond)
 	wait:
 		for {
@@ -240,7 +244,9 @@ type decWorker struct {
 	out *bufio.Reader
 }
 
-func startDecWorker() *decWorker {
+// startDecWorker starts a worker child; patient: a five times longer watchdog (used once to
+// confirm a hang / crash verdict, so that a stalled machine is not mistaken for a hang).
+func startDecWorker(patient bool) *decWorker {
 	self, err := os.Executable()
 	if err != nil {
 		panic(err)
@@ -248,6 +254,9 @@ func startDecWorker() *decWorker {
 	script := fmt.Sprintf("ulimit -v %d 2>/dev/null; exec \"$0\" decworker", decUlimitVKiB)
 	cmd := exec.Command("/bin/bash", "-c", script, self)
 	cmd.Stderr = nil
+	if patient {
+		cmd.Env = append(os.Environ(), fmt.Sprintf("VERIF_DEC_WATCHDOG_MS=%d", 5*decWatchdog.Milliseconds()))
+	}
 	in, _ := cmd.StdinPipe()
 	outp, _ := cmd.StdoutPipe()
 	if err := cmd.Start(); err != nil {
@@ -282,10 +291,33 @@ func (p *DecPool) Close() {
 	}
 }
 
-// Run returns the implementation's observation for "<PROP> <case tokens>".
+// Run returns the implementation's observation for "<PROP> <case tokens>". A hang / oom / crash
+// verdict is confirmed once in a fresh, patient worker before it is reported.
 func (p *DecPool) Run(line string) string {
+	s, bad := p.runOnce(line, false)
+	if bad {
+		s2, bad2 := p.runOnce(line, true)
+		if !bad2 {
+			return s2
+		}
+		p.bad++
+	}
+	return s
+}
+
+func (p *DecPool) runOnce(line string, patient bool) (string, bool) {
+	if patient {
+		p.Close()
+	}
 	if p.w == nil {
-		p.w = startDecWorker()
+		p.w = startDecWorker(patient)
+	}
+	if patient {
+		defer p.Close()
+	}
+	limit := decWatchdog + 8*time.Second
+	if patient {
+		limit = 5*decWatchdog + 8*time.Second
 	}
 	type res struct {
 		s   string
@@ -307,8 +339,7 @@ func (p *DecPool) Run(line string) string {
 		if r.err != nil {
 			// the child died without an answer (memory cap of ulimit -v, fatal runtime error)
 			p.Close()
-			p.bad++
-			return "crash"
+			return "crash", true
 		}
 		last := s
 		if i := strings.LastIndex(s, " / "); i >= 0 {
@@ -316,13 +347,12 @@ func (p *DecPool) Run(line string) string {
 		}
 		if last == "hang" || last == "oom" {
 			p.Close()
-			p.bad++
+			return s, true
 		}
-		return s
-	case <-time.After(decWatchdog + 8*time.Second):
+		return s, false
+	case <-time.After(limit):
 		p.Close()
-		p.bad++
-		return "hang"
+		return "hang", true
 	}
 }
 
